@@ -20,8 +20,8 @@ import json
 import vlib
 
 TIERS = {
-    "quick": dict(classes="a40,c40,a10,n30", cfgs="20:10,5:10", n=420, maxlen=300),
-    "thorough": dict(classes="a40,c40,g0,a20,n30,r40", cfgs="20:10,5:10,20:5", n=6000, maxlen=300),
+    "quick": dict(classes="a40,c40,a10,c10", cfgs="20:10,5:10", n=600, chunks=1, maxlen=300),
+    "thorough": dict(classes="a40,c40,a10,c10,n30,g0", cfgs="20:10,5:10,20:5", n=5000, chunks=3, maxlen=300),
 }
 
 NEED_R = (
@@ -123,9 +123,13 @@ def main(ctx):
     for need in NEED_R:
         ctx.expect_vacuity("class " + need, ctx.classes.get(need, 0))
     # T ---------------------------------------------------------------------------------------------------
-    trace = ctx.path("trace.ndjson")
-    ctx.harness(["record", "C08", "--out", trace, "--n", P["n"], "--opt", "maxlen=%d" % P["maxlen"]], timeout=900)
-    events, rejects, tagged = validate_trace(ctx, trace, tcfg, 2400)
+    events, rejects, tagged = [], [], []
+    for k in range(P["chunks"]):        # one TLC run per chunk (the trace is a constant of the run)
+        trace = ctx.path("trace%d.ndjson" % k)
+        ctx.harness(["record", "C08", "--out", trace, "--n", P["n"], "--opt", "maxlen=%d" % P["maxlen"]], timeout=900,
+                    env={"VERIF_SEED": ctx.seed + 7919 * k})
+        e, r, t = validate_trace(ctx, trace, tcfg, 2400)
+        events, rejects, tagged = events + e, rejects + r, tagged + t
     fam = collections.Counter(e["sc"] for e in events)
     for need in NEED_FAMILIES:
         ctx.expect_vacuity("trace family " + need, fam.get(need, 0))
